@@ -27,8 +27,16 @@ def run_one(prop, tier, seed, root=None, quiet=False):
         mod = importlib.import_module("sa.checks." + prop)
         res = report.Result(prop, repo)
         mod.check(repo, res, tier)
-        if tier == "thorough" and hasattr(mod, "thorough"):
-            mod.thorough(repo, res, seed)
+        if tier == "thorough":
+            from .selftest import runner
+            tally = runner.run(prop, root)
+            res.selftest = tally
+            for m in tally["misses"]:
+                print("SELFTEST-MISS property=%s %s: %s" % (prop, m["variant"], m["problem"]))
+                res.undecided("SELFTEST", "selftest::" + m["variant"], None, m["problem"])
+            print("SELFTEST property=%s faults %d/%d detected, refactorings %d/%d silent, seeded %d/%d detected"
+                  % (prop, tally["faults_detected"], tally["faults_applied"], tally["refactorings_silent"], tally["refactorings_applied"],
+                     tally["seeded_detected"], tally["seeded_applied"]))
         return report.emit(res, tier, seed, t0, technique=getattr(mod, "TECHNIQUE", ""))
     except AnalysisError as e:
         print("ANALYSIS-ERROR property=%s obligation=anchor reason=%s" % (prop, e))
